@@ -174,8 +174,9 @@ func c04Scenarios() []c04Scenario {
 				case 1:
 					return []c04Result{c04Stat(c, 77, lost), c04Stat(c, 78, lost), c04Stat(c, 79, lost)}
 				case 2:
-					_, err := c.ReadDir("/dir")
-					return []c04Result{{name: "ReadDir", err: err, good: true}}
+					ents, err := c.ReadDir("/dir")
+					// a listing cut short by the fault must come with an error
+					return []c04Result{{name: "ReadDir", err: err, good: len(ents) == 3, detail: fmt.Sprintf("%d of 3 entries", len(ents))}}
 				default:
 					err := c.Remove("/m/4")
 					return []c04Result{{name: "Remove", err: err, good: true}}
@@ -223,7 +224,7 @@ type c04Obs struct {
 
 func c04RunOnce(u *vfUnit, sc c04Scenario, fault *c04Fault, hookSeed uint64) c04Obs {
 	var obs c04Obs
-	model := &vfModel{handles: map[string]uint64{}, writes: map[string][]byte{}, inflight: map[uint32]bool{}, noWriteFail: true}
+	model := &vfModel{handles: map[string]uint64{}, writes: map[string][]byte{}, inflight: map[uint32]bool{}, noWriteFail: true, dirEntries: 3}
 	if sc.short {
 		model.short = vfNewRand(hookSeed ^ 0x5bd1e995)
 	}
@@ -232,12 +233,6 @@ func c04RunOnce(u *vfUnit, sc c04Scenario, fault *c04Fault, hookSeed uint64) c04
 	peer := &vfPeer{Handler: func(req vfPkt, raw []byte) []byte {
 		if strings.HasPrefix(req.Path, "/hold/") {
 			return nil // never answered
-		}
-		if req.Type == rfReaddir || req.Type == rfOpendir {
-			if req.Type == rfOpendir {
-				return vfPkt{Type: rfHandle, ID: req.ID, Handle: "dh"}.Frame()
-			}
-			return vfStatusFrame(req.ID, rfEOF, "EOF")
 		}
 		return model.handler(req, raw)
 	}}
@@ -284,6 +279,9 @@ func c04RunOnce(u *vfUnit, sc c04Scenario, fault *c04Fault, hookSeed uint64) c04
 	var lost atomic.Bool
 	if fault != nil {
 		onCut := func() { lost.Store(true); fired.Store(true) }
+		// the value the failing transport reports: drawn from the pool by the fault position (a failure is a
+		// failure whatever its value, including interrupted / temporary / timeout / end-of-file values)
+		errVfCut := vfFaultErr(int(fault.pos))
 		switch fault.kind {
 		case "s2c-eof":
 			ctl.CutAfter(vfS2C, handshake+fault.pos, nil, onCut)
